@@ -13,7 +13,7 @@ Z_ = 'lobj._memzone'
 
 PLACE = dict(
     props=['C02', 'C05'],
-    where='loop[@for lobj in compilable_line_obs#0].body', locals={'lobj': 'LineObject'},
+    where='loop[@for lobj in compilable_line_obs#0|2].body', locals={'lobj': 'LineObject'},
     requires=['line_wf(lobj)', 'place_wf(lobj)', f'zone_ok({Z_})', f'{Z_}._start >= 0',
               'implies(isa(lobj, "AddressOrgLine"), "GLOBAL" in lobj._memzone_manager._zones)',
               'implies(isa(lobj, "LabelLine"), lobj._label_scope is not None and scope_wf(lobj._label_scope))'],
@@ -83,9 +83,16 @@ LIST_OK = [
     f'forall(lambda j, k: implies(0 <= j and j < k and k < {N}, a_of({Lj}) <= a_of({Lk})))',
 ]
 
+# (pairwise disjointness -- invariants 7, 8, 10 and the first postcondition -- is C04's alone: C02 and C14 use this block for
+#  "every byte line gets its bytes, as many as reserved", so a change that only weakens the overlap test alarms C04 only)
+NOT_DISJOINTNESS = ['.preserve[7]', '.preserve[8]', '.preserve[10]', '.establish[7]', '.establish[8]', '.establish[10]',
+                    'block[overlap]/ensures[0]']
+MUTED_BYTES = ['.preserve[11]', '.establish[11]', 'block[overlap]/ensures[3]']
+EMITTED = ['.preserve[5]', '.establish[5]', 'block[overlap]/ensures[1]', 'block[overlap]/ensures[2]'] + MUTED_BYTES
 OVERLAP = dict(
     props=['C04', 'C02', 'C14'], shards=12,
-    where='loop[@for lobj in compilable_line_obs#1]', locals={LST: 'list[LineObject]', 'last_line': 'LineWithBytes?', 'lobj': 'LineObject'},
+    skip_for={'C02': NOT_DISJOINTNESS + MUTED_BYTES, 'C14': NOT_DISJOINTNESS, 'C04': EMITTED},
+    where='loop[@for lobj in compilable_line_obs#1|3]', locals={LST: 'list[LineObject]', 'last_line': 'LineWithBytes?', 'lobj': 'LineObject'},
     requires=LIST_OK + ['last_line is None',
                         all_lines(f'implies(is_bytes_line({Lj}), len({Lj}._bytes) == 0)')],
     may_raise={'SystemExit': 'True', 'ValueError': 'True', 'NotImplementedError': 'True'},
@@ -94,8 +101,10 @@ OVERLAP = dict(
         f'forall(lambda j, k: implies(0 <= j and j < k and k < {N} and is_bytes_line({Lj}) and is_bytes_line({Lk}),'
         f' end_of({Lj}) <= a_of({Lk})))',
         # C02: what every byte-producing line finally emitted is exactly the space reserved for it
-        all_lines(f'implies(is_bytes_line({Lj}), len({Lj}._bytes) == line_size({Lj}))'),
+        all_lines(f'implies(is_bytes_line({Lj}) and not {Lj}._is_muted, len({Lj}._bytes) == line_size({Lj}))'),
         all_lines(f'line_size({Lj}) == old(line_size({Lj}))'),
+        # C14: muted lines are assembled too (their labels and values are checked although their bytes go nowhere)
+        all_lines(f'implies(is_bytes_line({Lj}) and {Lj}._is_muted, len({Lj}._bytes) == line_size({Lj}))'),
     ],
     modifies=['all-lists:bytearray', '*._count:FillDataLine', '*._value:FillDataLine',
               '*._fill_until_addr:FillUntilDataLine', '*._fill_value:FillUntilDataLine'],
@@ -109,7 +118,7 @@ OVERLAP_INV = dict(
         f'i <= {N}',
         all_lines(f'line_size({Lj}) == entry(line_size({Lj}))'),
         # processed byte lines carry their bytes, the others are still empty
-        all_lines(f'implies(is_bytes_line({Lj}), len({Lj}._bytes) == line_size({Lj}))', hi='i'),
+        all_lines(f'implies(is_bytes_line({Lj}) and not {Lj}._is_muted, len({Lj}._bytes) == line_size({Lj}))', hi='i'),
         all_lines(f'implies(is_bytes_line({Lj}), len({Lj}._bytes) == 0)', lo='i'),
         # pairwise disjointness of the processed byte lines
         f'forall(lambda j, k: implies(0 <= j and j < k and k < i and is_bytes_line({Lj}) and is_bytes_line({Lk}),'
@@ -119,7 +128,9 @@ OVERLAP_INV = dict(
         'implies(last_line is not None, is_bytes_line(last_line) and line_wf(last_line) and addressable(last_line)'
         ' and not size_fails(last_line) and allocated(last_line))',
         all_lines('implies(last_line is not None, a_of(last_line) <= a_of(' + Lj + ') and last_line != ' + Lj + ')', lo='i'),
+        # [11] muted byte lines that were processed carry their bytes as well (C14)
+        all_lines(f'implies(is_bytes_line({Lj}) and {Lj}._is_muted, len({Lj}._bytes) == line_size({Lj}))', hi='i'),
     ])
 
 contract(ENG, props=['C02', 'C04', 'C05', 'C14'], name='engine', blocks_only=True,
-         blocks={'place': PLACE, 'overlap': OVERLAP}, loops={'@for lobj in compilable_line_obs#1': OVERLAP_INV})
+         blocks={'place': PLACE, 'overlap': OVERLAP}, loops={'@for lobj in compilable_line_obs#1|3': OVERLAP_INV})
